@@ -32,9 +32,9 @@ def oracle(ctx, stores):
         if o.split(" ")[0] == "TIMEOUT":
             late.setdefault(lib.store_cmd("cfg live -", f, b), (f, b, tag, s))
     if late:
-        keys = list(late)[:40]
+        keys = list(late)[:6]
         mod = lib.run_model(ctx, keys, tag="rerun-timeout-model")
-        again = lib.run_impl(ctx, keys, tag="rerun-timeout-impl", limit_ms=15000)
+        again = lib.run_impl(ctx, keys, tag="rerun-timeout-impl", limit_ms=10000, shards=6)
         for c, m, a in zip(keys, mod, again):
             f, b, tag, s = late[c]
             if m.startswith("C(") and a == "TIMEOUT":
